@@ -121,7 +121,7 @@ func buildShared(r *rand.Rand) (*ucfg.Config, []ucfg.Option, string) {
 func fingerprint(c *ucfg.Config) string {
 	var b strings.Builder
 	for _, n := range ucfg.VerifWalk(c) {
-		fmt.Fprintf(&b, "%s|%s|%x|%x|%q|%x|%x|%q|%d|%d|%v\n", n.Walk, n.Kind, n.Addr, n.Fields, n.Field, n.Parent, n.Holder, n.Text, n.NDict, n.NArr, n.HasArr)
+		fmt.Fprintf(&b, "%s|%s|%x|%x|%q|%x|%x|%q|%q|%d|%d|%v\n", n.Walk, n.Kind, n.Addr, n.Fields, n.Field, n.Parent, n.Holder, n.Text, n.Source, n.NDict, n.NArr, n.HasArr)
 	}
 	return b.String()
 }
@@ -198,6 +198,24 @@ func ops(c *ucfg.Config, captured *ucfg.Config, o []ucfg.Option) []op {
 			var m map[string]interface{}
 			return canon(m, dst.Unpack(&m, o...))
 		}},
+		{"dst.Merge(shared, MetaData)", func() string {
+			// the merge call carries its own source metadata; the source config has none
+			dst := ucfg.New()
+			if err := dst.Merge(c, ucfg.PathSep("."), ucfg.MetaData(ucfg.Meta{Source: "override.yml"})); err != nil {
+				return "error"
+			}
+			_, err := dst.Int("a", -1, ucfg.PathSep("."))
+			return strings.Join(sorted(dst.GetFields()), ",") + fmt.Sprint(err != nil)
+		}},
+		{"Unpack(*Config target, MetaData)", func() string {
+			var t struct {
+				Sub *ucfg.Config `config:"sub"`
+			}
+			if err := c.Unpack(&t, append(append([]ucfg.Option{}, o...), ucfg.MetaData(ucfg.Meta{Source: "reader"}))...); err != nil {
+				return "error"
+			}
+			return strings.Join(sorted(t.Sub.GetFields()), ",")
+		}},
 		{"dst.Merge(map{emb: shared})", func() string {
 			dst := ucfg.New()
 			if err := dst.Merge(map[string]interface{}{"emb": c, "k": 1}, ucfg.PathSep(".")); err != nil {
@@ -227,6 +245,45 @@ func ops(c *ucfg.Config, captured *ucfg.Config, o []ucfg.Option) []op {
 		)
 	}
 	return l
+}
+
+// mixedOps: a config built with VarExp but WITHOUT a path separator, read by
+// readers that pass different option sets (with and without PathSep). What one
+// reader passes must not influence what another one gets.
+func mixedOps() (*ucfg.Config, []op) {
+	c, err := ucfg.NewFrom(map[string]interface{}{
+		"a":   map[string]interface{}{"b": "nested"},
+		"a.b": "flat",
+		"r":   "${a.b:fallback}",
+		"s":   "${a.b}",
+		"t":   "${a.b:+alt}",
+		"u":   "${a.b:?boom}",
+		"v":   "x-${a.b:dflt}-y",
+	}, ucfg.VarExp)
+	if err != nil {
+		panic(err)
+	}
+	plain := []ucfg.Option{ucfg.VarExp}
+	dotted := []ucfg.Option{ucfg.PathSep("."), ucfg.VarExp}
+	slash := []ucfg.Option{ucfg.PathSep("/"), ucfg.VarExp}
+	var l []op
+	for _, k := range []string{"r", "s", "t", "u", "v"} {
+		k := k
+		for name, o := range map[string][]ucfg.Option{"plain": plain, "dotted": dotted, "slash": slash} {
+			o := o
+			l = append(l, op{"mixed:String(" + k + ")/" + name, func() string { s, err := c.String(k, -1, o...); return canon(s, err) }})
+		}
+	}
+	for name, o := range map[string][]ucfg.Option{"plain": plain, "dotted": dotted} {
+		o := o
+		l = append(l, op{"mixed:Unpack/" + name, func() string {
+			var m map[string]interface{}
+			err := c.Unpack(&m, o...)
+			return canon(m, err)
+		}})
+	}
+	sort.Slice(l, func(i, j int) bool { return l[i].name < l[j].name })
+	return c, l
 }
 
 func sorted(l []string) []string {
@@ -313,7 +370,8 @@ func dedupeKeys(log string, from int) []string {
 func (check) Run(seed int64, tier string, idx int, verbose bool) harness.Result {
 	res := harness.NewR(idx)
 	r := rand.New(rand.NewSource(harness.Mix(seed, "C11", idx)))
-	shared, o, desc := buildShared(r)
+	bseed := r.Int63()
+	shared, o, desc := buildShared(rand.New(rand.NewSource(bseed)))
 	if idx < 2 {
 		res.Sample = desc
 	}
@@ -324,11 +382,37 @@ func (check) Run(seed int64, tier string, idx int, verbose bool) harness.Result 
 		captured = cap.Cap
 	}
 	list := ops(shared, captured, o)
+	shared2, mixed := mixedOps()
+	list = append(list, mixed...)
+	fp0, fp0b := fingerprint(shared), fingerprint(shared2)
 	// sequential baseline, taken before any goroutine starts
 	base := make([]string, len(list))
 	for i, op := range list {
+		// the reference result of a read comes from a FRESH, identically built
+		// config on which nothing else has been read before
+		var pristine string
+		harness.Safe(func() {
+			fs, fo, _ := buildShared(rand.New(rand.NewSource(bseed)))
+			var fc *ucfg.Config
+			var ft typed
+			if fs.Unpack(&ft, fo...) == nil {
+				fc = ft.Cap
+			}
+			fl := ops(fs, fc, fo)
+			_, fm := mixedOps()
+			fl = append(fl, fm...)
+			if len(fl) == len(list) && fl[i].name == op.name {
+				pristine = fl[i].run()
+			} else {
+				pristine = "<op list differs>"
+			}
+		})
 		if p, pv, where := harness.Safe(func() { base[i] = op.run() }); p {
 			res.Violate("panic", "sequential %s panicked: %s at %s", op.name, pv, where)
+			return res.Done()
+		}
+		if base[i] != pristine {
+			res.Violate("read-influenced-by-earlier-reads", "%s returned %q on a fresh config and %q on an identical config after other reads had run on it", op.name, pristine, base[i])
 			return res.Done()
 		}
 		// reads are pure: repeating the read alone gives the same result
@@ -340,13 +424,28 @@ func (check) Run(seed int64, tier string, idx int, verbose bool) harness.Result 
 		}
 		res.Eval(2)
 	}
+	// reads are pure also across DIFFERENT reads: after all of them ran once,
+	// each still gives its first result (in another order), and nothing stored changed
+	for _, i := range r.Perm(len(list)) {
+		var again string
+		harness.Safe(func() { again = list[i].run() })
+		res.Eval(1)
+		if again != base[i] {
+			res.Violate("read-influenced-by-earlier-reads", "%s returned %q alone and %q after the other reads had run on the same config", list[i].name, base[i], again)
+			return res.Done()
+		}
+	}
+	if fingerprint(shared) != fp0 || fingerprint(shared2) != fp0b {
+		res.Violate("shared-config-modified-by-reads", "the sequential reads changed the stored state of the config: %q vs %q", firstDiff(fp0, fingerprint(shared)), firstDiff(fingerprint(shared), fp0))
+		return res.Done()
+	}
 	raceBefore, _ := raceReports()
 	goroutines := []int{2, 4, 8, 16, 32}[r.Intn(5)]
 	res.SetAdd("goroutines", strconv.Itoa(goroutines))
 	rounds := 10
 	var hookSeq int64
 	for round := 0; round < rounds; round++ {
-		fpBefore := fingerprint(shared)
+		fpBefore := fingerprint(shared) + fingerprint(shared2)
 		var mu sync.Mutex
 		var stream []int64
 		hseed := r.Int63()
@@ -424,7 +523,7 @@ func (check) Run(seed int64, tier string, idx int, verbose bool) harness.Result 
 			res.Violate(sig, "%s; %d goroutines, round %d; config %s", m, goroutines, round, desc)
 			break
 		}
-		if fpAfter := fingerprint(shared); fpAfter != fpBefore {
+		if fpAfter := fingerprint(shared) + fingerprint(shared2); fpAfter != fpBefore {
 			res.Violate("shared-config-modified-by-reads", "fingerprint of the shared config changed during round %d (%d goroutines): %q vs %q; config %s", round, goroutines, firstDiff(fpBefore, fpAfter), firstDiff(fpAfter, fpBefore), desc)
 			break
 		}
